@@ -1,0 +1,120 @@
+//go:build verif
+
+package cisco
+
+// Hooks for the verification harness in /verif.
+// Only compiled with build tag "verif"; add-only, no behaviour of its own.
+
+import (
+	"fmt"
+	"maps"
+	"slices"
+
+	"github.com/hknutzen/Netspoc-Approve/go/pkg/deviceconf"
+)
+
+type VerifCmd struct {
+	Prefix string
+	Orig   string
+	Parsed string
+	Name   string
+	Seq    int
+	Ref    []string
+	Append bool
+	Sub    []*VerifCmd
+}
+
+func verifCmd(c *cmd) *VerifCmd {
+	v := &VerifCmd{
+		Prefix: c.typ.prefix, Orig: c.orig, Parsed: c.parsed,
+		Name: c.name, Seq: c.seq, Ref: c.ref, Append: c.append,
+	}
+	for _, sc := range c.sub {
+		v.Sub = append(v.Sub, verifCmd(sc))
+	}
+	return v
+}
+
+type VerifEntry struct {
+	Prefix string
+	Name   string
+	Cmds   []*VerifCmd
+}
+
+// VerifDumpConfig shows a parsed configuration sorted by prefix and name.
+func VerifDumpConfig(cf deviceconf.Config) []VerifEntry {
+	c := cf.(*Config)
+	var result []VerifEntry
+	for _, prefix := range slices.Sorted(maps.Keys(c.lookup)) {
+		m := c.lookup[prefix]
+		for _, name := range slices.Sorted(maps.Keys(m)) {
+			e := VerifEntry{Prefix: prefix, Name: name}
+			for _, c := range m[name] {
+				e.Cmds = append(e.Cmds, verifCmd(c))
+			}
+			result = append(result, e)
+		}
+	}
+	return result
+}
+
+type VerifCmdType struct {
+	Prefix    string
+	Template  []string
+	Ref       []string
+	Ignore    bool
+	Sub       []*VerifCmdType
+	ClearConf bool
+	SimpleObj bool
+	Anchor    bool
+	FixedName bool
+}
+
+func verifType(t *cmdType) *VerifCmdType {
+	v := &VerifCmdType{
+		Prefix: t.prefix, Template: t.template, Ref: t.ref, Ignore: t.ignore,
+		ClearConf: t.clearConf, SimpleObj: t.simpleObj, Anchor: t.anchor,
+		FixedName: t.fixedName,
+	}
+	for _, st := range t.sub {
+		v.Sub = append(v.Sub, verifType(st))
+	}
+	return v
+}
+
+// VerifCmdDescr shows the command descriptions read from cmdInfo.
+func (s *State) VerifCmdDescr() []*VerifCmdType {
+	var result []*VerifCmdType
+	for _, t := range s.cmdDescr {
+		result = append(result, verifType(t))
+	}
+	return result
+}
+
+// VerifNameTables shows the tables used to normalize names in ACL lines.
+func VerifNameTables() map[string]map[string]string {
+	conv := func(m map[string]int) map[string]string {
+		r := make(map[string]string)
+		for k, v := range m {
+			r[k] = fmt.Sprint(v)
+		}
+		return r
+	}
+	return map[string]map[string]string{
+		"protoNames":      conv(protoNames),
+		"protoNonNumeric": protoNonNumeric,
+		"tcpNames":        conv(tcpNames),
+		"udpNames":        conv(udpNames),
+		"icmpTypeCodes":   icmpTypeCodes,
+		"icmp6Types":      conv(icmp6Types),
+		"logNames":        conv(logNames),
+	}
+}
+
+// VerifDstOfRoute applies dstOfRoute and routeVRF's field extraction
+// to a route command given by prefix and parsed text.
+func VerifDstOfRoute(prefix, parsed string) (vrf, dst string) {
+	c := &cmd{typ: &cmdType{prefix: prefix}, parsed: parsed}
+	d := dstOfRoute(c)
+	return d.vrf, d.dst.String()
+}
